@@ -36,7 +36,7 @@ LOOP = lambda body: r"(?: %s)*" % body
 
 def ser_table():
     t = {
-        "Bool": [r"json:as_bool push:0", r"json:as_bool push:1", r"json:as_bool push:bool"],
+        "Bool": [r"json:Bool push:0", r"json:Bool push:1", r"json:Bool push:bool"],
         "I8": [r"json:as_i64 try_from:i8 push:byte"],
         "U8": [r"json:as_u64 try_from:u8 push:byte"],
         "I16": [r"json:as_i64 try_from:i16 ZZ16 W16 extend:varint"],
@@ -51,24 +51,24 @@ def ser_table():
         "Isize": [r"json:as_i64 ZZ64 W64 extend:varint"],
         "F32": [r"json:as_f64 to_le_bytes:f32 extend:le4"],
         "F64": [r"json:as_f64 to_le_bytes:f64 extend:le8"],
-        "Char": [r"json:as_str W64 extend:varint extend:str-bytes"],
-        "String": [r"json:as_str W64 extend:varint extend:str-bytes"],
-        "ByteArray": [r"json:as_array W64 extend:varint std:next" + LOOP(r"json:as_u64 try_from:u8 push:byte std:next")],
-        "Option": [r"json:is_null push:0", r"json:is_null push:1 rec:@Option/0"],
+        "Char": [r"json:String W64 extend:varint extend:str-bytes"],
+        "String": [r"json:String W64 extend:varint extend:str-bytes"],
+        "ByteArray": [r"json:Array W64 extend:varint std:next" + LOOP(r"json:as_u64 try_from:u8 push:byte std:next")],
+        "Option": [r"json:Null\? push:0", r"json:Null\? push:1 rec:@Option/0"],
         "Unit": [r""],
         "Struct/Unit": [r""],
         "Struct/Newtype": [r"rec:@Struct/data/@Newtype/0"],
-        "Seq": [r"json:as_array W64 extend:varint std:next" + LOOP(r"rec:@Seq/0 std:next")],
-        "Tuple": [r"json:as_array std:zip std:next" + LOOP(r"rec:\S* std:next")],
-        "Struct/Tuple": [r"json:as_array std:zip std:next" + LOOP(r"rec:\S* std:next")],
-        "Map": [r"json:as_object W64 extend:varint std:next" + LOOP(r"W64 extend:varint extend:str-bytes rec:@Map/val std:next")],
-        "Struct/Struct": [r"json:as_object std:next" + LOOP(r"std:map_get rec:ty std:next")],
+        "Seq": [r"json:Array W64 extend:varint std:next" + LOOP(r"rec:@Seq/0 std:next")],
+        "Tuple": [r"json:Array std:zip std:next" + LOOP(r"rec:\S* std:next")],
+        "Struct/Tuple": [r"json:Array std:zip std:next" + LOOP(r"rec:\S* std:next")],
+        "Map": [r"json:Object W64 extend:varint std:next" + LOOP(r"W64 extend:varint extend:str-bytes rec:@Map/val std:next")],
+        "Struct/Struct": [r"json:Object std:next" + LOOP(r"std:map_get rec:ty std:next")],
     }
-    head_s = r"json:as_str std:enumerate std:find W64 extend:varint"
-    head_o = r"json:as_str json:as_object std:next std:enumerate std:find W64 extend:varint"
+    head_s = r"json:String std:enumerate std:find W64 extend:varint"
+    head_o = r"json:Object std:next std:enumerate std:find W64 extend:varint"
     t["Enum"] = [head_s, head_o, head_o + r" rec:\S*Newtype/0",
-                 head_o + r" json:as_array std:zip std:next" + LOOP(r"rec:\S* std:next"),
-                 head_o + r" json:as_object std:next" + LOOP(r"std:map_get rec:ty std:next")]
+                 head_o + r" json:Array std:zip std:next" + LOOP(r"rec:\S* std:next"),
+                 head_o + r" json:Object std:next" + LOOP(r"std:map_get rec:ty std:next")]
     return t
 
 
@@ -102,7 +102,7 @@ def ret_ctor(A, p):
         return "rec"
     r = p.ret[5][0]
     if r[0] == "agg" and r[1] == "tuple":
-        return dynarms.json_ctor(r[5][0])
+        return dynarms.json_ctor(r[5][0], p)
     return "?"
 
 
